@@ -12,6 +12,7 @@ import contextlib
 
 from code_data import (AdditionalLine, Args, Cellvar, CodeData, Constant, Freevar, Function, Instruction, Jump, Name, NoArg, Varname)
 
+from .props import decode_failure  # noqa: E402
 from . import gen, oracle
 from .props import flat
 from .props2 import CORPUS_CHECKS, PY38, PY310, code_replace, fail, part, replayer, result
@@ -373,7 +374,7 @@ def c03_replay(rec):
 def c03_corpus(code, dec):
     cd, err = dec.get(code)
     if err is not None:
-        return []
+        return decode_failure(code, err)
     n = cd.normalize()
     return c03_check(_shallow(n))
 
